@@ -107,7 +107,7 @@ fn check_writer(pipe: &Pipe, w: &mut DevInputWriter, evs: &Vec<Event>) -> Option
 // foreign records the reader has to skip
 fn foreign(rng: &mut Rng, unknown_codes: &[u16], keys: &[KeyCode]) -> Vec<u8> {
   let t = (rng.below(100000) as i64, rng.below(1000000) as i64);
-  match rng.below(9) {
+  match rng.below(12) {
     0 => record(EV_KEY, kernel_code(*rng.pick(keys)), 2, t.0, t.1),           // auto-repeat
     1 => record(EV_MSC, 4, rng.below(255) as i32, t.0, t.1),                              // MSC_SCAN
     2 => record(EV_SYN, 0, 0, t.0, t.1),
@@ -116,7 +116,7 @@ fn foreign(rng: &mut Rng, unknown_codes: &[u16], keys: &[KeyCode]) -> Vec<u8> {
     5 => record(EV_LED, rng.below(3) as u16, rng.below(2) as i32, t.0, t.1),
     6 => record(EV_KEY, kernel_code(*rng.pick(keys)), *rng.pick(&[3, -1, 256, i32::MAX, i32::MIN]), t.0, t.1),
     7 => record(EV_REP, 0, 250, t.0, t.1),
-    _ => record(EV_SYN, 1, 0, t.0, t.1)
+    _ => record(*rng.pick(&[0u16, 0, 0, 2, 3, 4, 5, 0x11, 0x15]), rng.below(6) as u16, rng.below(4) as i32 - 1, t.0, t.1)
   }
 }
 
@@ -222,6 +222,39 @@ pub fn run(opts: &Opts) -> i32 {
       run_case(&vec![Pressed(nb), e.clone()], &mut rng, &mut out, "exhaustive_pair", &keys, &unknown);
       out.nontrivial(hash64(&(i, press, 1u8)));
     }
+  }
+  // (1b) every small foreign record (type 0-5 and the LED/REP/SND types, code 0-7, value -1..2) in front of key records,
+  //      inside a batch and between two batches: the reader must still return every key event
+  {
+    let mut idx2 = 0u64;
+    for t in [0u16, 1, 2, 3, 4, 5, 0x11, 0x12, 0x14, 0x15, 0x17] { for c in 0u16..8 { for v in [-1i32, 0, 1, 2] {
+      idx2 += 1;
+      if idx2 % opts.nshards != opts.shard { continue; }
+      if t == EV_KEY && (v == 0 || v == 1) && <KeyCode as num_traits::FromPrimitive>::from_u16(c).is_some() { continue; }   // that is a key event, not a foreign record
+      let evs = vec![Pressed(KeyCode::LEFTSHIFT), Pressed(KeyCode::A), Released(KeyCode::A), Released(KeyCode::LEFTSHIFT)];
+      if let Some(pipe) = Pipe::new() {
+        let mut bytes = record(t, c, v, 1, 2);
+        bytes.extend(record(EV_KEY, kernel_code(KeyCode::LEFTSHIFT), 1, 1, 3));
+        bytes.extend(record(EV_KEY, kernel_code(KeyCode::A), 1, 1, 4));
+        bytes.extend(record(EV_SYN, 0, 0, 1, 5));
+        bytes.extend(record(t, c, v, 1, 6));
+        bytes.extend(record(EV_KEY, kernel_code(KeyCode::A), 0, 1, 7));
+        bytes.extend(record(EV_SYN, 0, 0, 1, 8));
+        bytes.extend(record(EV_KEY, kernel_code(KeyCode::LEFTSHIFT), 0, 1, 9));
+        bytes.extend(record(EV_SYN, 0, 0, 1, 10));
+        pipe.put(&bytes);
+        let mut reader = DevInputReader { fd: pipe.r };
+        let mut got = vec![];
+        loop { match reader.next() { Ok(e) => got.push(e), Err(_) => break } if got.len() > 8 { break; } }
+        out.count("foreign_triples_swept");
+        out.nontrivial(hash64(&(t, c, v, 99u8)));
+        if got != evs {
+          out.violation(Violation { property: "C18".to_string(), clause: "wire".to_string(), signature: "C18:reader-mishandles-a-foreign-record".to_string(),
+            message: format!("a foreign record (type {}, code {}, value {}) before key records: the reader returned {:?}, the key records were {:?}", t, c, v, got, evs),
+            replay: json!({ "engine": "wire", "property": "C18", "events": evs.iter().map(ev_str).collect::<Vec<_>>(), "foreign": [t, c, v] }) });
+        }
+      }
+    } } }
   }
   // (2) the empty batch
   if opts.shard == 0 { run_case(&vec![], &mut rng, &mut out, "empty_batch", &keys, &unknown); out.nontrivial(1); }
